@@ -25,13 +25,14 @@ ana   {"t":"ana", "stages":[[rxn,...],[rxn,...],...], "k": max_siphon_size|None,
       at the last successful compute).
 """
 import itertools
+import os
 
 from ..coqrun import cN, cZ, cnat, cbool, clist, cpair, copt
 from ..tok import S
 
 PID = "C20"
 COQ_HEADER = ("From Coq Require Import ZArith NArith List.\nImport ListNotations.\n"
-              "From SK Require Import lib.Tok model.C20_Model model.C20_Persist.\n")
+              "From SK Require Import lib.Tok model.C20_Model model.C20_Persist model.C20_Inputs.\n")
 SHARD = 120
 IMPL_TIMEOUT = 1500
 COQ_TIMEOUT = 1500
@@ -367,6 +368,22 @@ def _hist_call(pr, v, e, op, eidx):
             return [3, [] if cert is None else [[eidx[t] for t in cert]]], cert
         if k == "B":
             pr.build_petri_net_from_flow()
+            return [4], None
+        if k == "X":
+            # export_pnml(fn): REBUILDS the net from the current flow (clearing the certificate) and writes places / transitions /
+            # markings as JSON; the file must show the object's own net.  In the model this call is OpBuild.
+            import json as _json
+            import tempfile
+            with tempfile.TemporaryDirectory() as td:
+                fn = os.path.join(td, "net.json")
+                ret = pr.export_pnml(fn)
+                with open(fn) as fh:
+                    data = _json.load(fh)
+            want = dict(places=sorted(pr._petri.places),
+                        transitions={tid: {"pre": dict(t.pre), "post": dict(t.post)} for tid, t in pr._petri.transitions.items()},
+                        initial=dict(pr._initial_marking), target=dict(pr._target_marking))
+            if ret is not pr or data != _json.loads(_json.dumps(want)):
+                return [5, "export_pnml wrote %r, the object holds %r" % (data, want)], None
             return [4], None
         if k == "L":
             pr.load_hypergraph_and_flow(v, e, {e_: f_ for e_, f_ in op[1]})
@@ -734,10 +751,20 @@ def coq_case(case):
                           clist([cpair(cN(rank[s]), cZ(c)) for s, c in head])) for _, tail, head in case["edges"]])
         ms = case.get("max_states")
         md = case.get("max_depth")
-        return "run_flow %s %s %s %s %s" % (clist([cN(rank[s]) for s in verts]), ed,
-                                           clist([cZ(fl.get(eid, 0)) for eid, _, _ in case["edges"]]),
-                                           cN(DEFAULT_MAX_STATES if ms is None else ms),
-                                           cN(DEFAULT_MAX_DEPTH if md is None else md))
+        # the flow MAP as the caller hands it over (edge = its position in the edge list; entries for unknown edge ids get numbers
+        # beyond the list): the two default rules (converter: missing -> 1, direct load: missing -> 0) are applied by the model
+        eix = {eid: j for j, (eid, _, _) in enumerate(case["edges"])}
+        unknown = {}
+
+        def cmap(items):
+            return clist([cpair(cN(eix[e_] if e_ in eix else 1000 + unknown.setdefault(e_, len(unknown))), cZ(f_)) for e_, f_ in items])
+        if case.get("via", "direct") == "hg":
+            omit = set(case.get("omit", []))
+            given = "None" if case.get("flow_none") else "(Some %s)" % cmap([(e_, f_) for e_, f_ in case["flow"] if e_ not in omit])
+            return "run_flow_hg %s %s %s %s %s" % (clist([cN(rank[s]) for s in verts]), ed, given,
+                                                  cN(DEFAULT_MAX_STATES if ms is None else ms), cN(DEFAULT_MAX_DEPTH if md is None else md))
+        return "run_flow_direct %s %s %s %s %s" % (clist([cN(rank[s]) for s in verts]), ed, cmap(case["flow"]),
+                                                  cN(DEFAULT_MAX_STATES if ms is None else ms), cN(DEFAULT_MAX_DEPTH if md is None else md))
     if t == "ana":
         import copy
 
@@ -798,7 +825,7 @@ def coq_case(case):
                 ops.append("OpScaled %s" % cnat(op[1]))
             elif k == "C":
                 ops.append("OpCert")
-            elif k == "B":
+            elif k in ("B", "X"):
                 ops.append("OpBuild")
             elif k == "L":
                 ops.append("OpLoad %s" % cflow(op[1]))
@@ -1179,7 +1206,7 @@ def _oracle_hist(case):
             if raw is not None and not borrowed:
                 for f in _check_cert(case, cur, raw):
                     fails.append(dict(f, detail=where(i) + ": stored certificate: " + f["detail"] + " (flow %r)" % (cur,)))
-        elif k == "B":
+        elif k in ("B", "X"):
             built, borrowed = True, False
         elif k == "L":
             cur = [list(x) for x in op[1]]
@@ -1875,7 +1902,7 @@ def _rand_ops(rng, base, n):
         elif z < 0.78:
             ops.append(["C"])
         elif z < 0.88:
-            ops.append(["B"])
+            ops.append(["B"] if rng.random() < 0.7 else ["X"])
         elif z < 0.96:
             q = rng.random()
             if q < 0.4:
@@ -1896,7 +1923,9 @@ HIST_RETRY = [["B", "Rt", "R", "C"], ["B", "Rd", "R", "C", "Rt", "C"], ["B", "R"
 HIST_PATTERNS = [
     ["B", "S", "R", "C"], ["S", "R"], ["B", "R", "S", "C", "R"], ["B", "S", "C", "S", "R"], ["S", "C", "R", "C"],
     ["B", "R", "C", "S", "R", "C"], ["S", "B", "R"], ["B", "S", "L2", "R", "B", "R", "C"], ["B", "R", "L2", "R", "C", "S", "R"],
-    ["R", "B", "R", "Rb", "C", "R", "C"], ["B", "W", "R", "C"], ["B", "S", "W", "R"],
+    ["R", "B", "R", "Rb", "C", "R", "C"],
+    ["B", "R", "C", "X", "C", "R"], ["X", "R", "S", "X", "R", "C"],          # export_pnml rebuilds (certificate cleared) and writes the net
+    ["B", "W", "R", "C"], ["B", "S", "W", "R"],                              # (the last two: borrow patterns, see gen_histories)
 ]
 
 
@@ -2097,7 +2126,7 @@ def gen_cases(tier, rng):
     for sh in range(6):
         cases.append(dict(t="net", kind="net-textbook", species=[], iso=[], rxns=[[[["A", 1]], [["B", 1]]], [[["B", 1]], [["C", 1]]]],
                           mode="bip" if sh % 2 else "und", k=3, shuffle=sh, int_ids=sh >= 3))
-    cases += gen_big_nets(6 if tier == "quick" else 40, rng)
+    cases += gen_big_nets(6 if tier == "quick" else 24, rng)
     cases += [c for c in gen_textbook() if c is not None]
     if tier == "quick":
         cases += gen_random_nets(400, rng)
@@ -2110,7 +2139,7 @@ def gen_cases(tier, rng):
     return cases
 
 
-LEVEL_TEXT = ("Machine-checked proof (Coq, 20 theorems, all closed under the global context) over an executable, structure-following model of "
+LEVEL_TEXT = ("Machine-checked proof (Coq, 21 theorems, all closed under the global context) over an executable, structure-following model of "
               "structure.py / net.py / realizability.py: (1) the siphon and trap index predicates equal the Petri-net definitions for every network "
               "and every species subset; (2) _minimal_sets returns exactly the inclusion-minimal candidates for every candidate list; (3) find_siphons / "
               "find_traps report exactly the minimal non-empty siphons / traps (for every max_size); (4) enabled <=> marking covers the reactants, "
